@@ -375,8 +375,11 @@ pub fn cache_async(attr: TokenStream, item: TokenStream) -> TokenStream {
                 cachelito_core::InvalidationRegistry::global().register_callback(
                     #fn_name_str,
                     move || {
+                        // Hold the queue lock across both updates so that no insert can
+                        // slip in between and leave an entry stored but untracked.
+                        let mut order_write = #order_ident.lock();
                         #cache_ident.clear();
-                        #order_ident.lock().clear();
+                        order_write.clear();
                     }
                 );
             });
